@@ -51,10 +51,22 @@ func (r *scriptRNG) Read(p []byte) (int, error) {
 // of events a call put on the bus. The harness is single threaded with respect to writes.
 var busSends atomic.Int64
 
+// armedPoint: the next goroutine that reaches this yield point parks (once) until released.
+var (
+	armedPoint atomic.Value // string
+	parkedCh   = make(chan struct{}, 1)
+	releaseCh  = make(chan struct{})
+)
+
 func installHook() {
+	armedPoint.Store("")
 	verifhook.Set(func(point string) {
 		if point == "bus.send.afterSnapshot" {
 			busSends.Add(1)
+		}
+		if p, _ := armedPoint.Load().(string); p != "" && p == point && armedPoint.CompareAndSwap(p, "") {
+			parkedCh <- struct{}{}
+			<-releaseCh
 		}
 	})
 }
@@ -101,9 +113,16 @@ func (s *realSub) push(e string) {
 	}
 }
 
+// takeBound bounds the wait for an expected delivery. It never matters on a tree where every expected
+// delivery arrives; once several have not (the run is failing anyway) it is shortened so the run ends soon.
+var (
+	takeBound    = waitBound
+	takeTimeouts int
+)
+
 // take waits (bounded) until n more events have arrived and returns them.
 func (s *realSub) take(n int) []string {
-	deadline := time.After(waitBound)
+	deadline := time.After(takeBound)
 	for {
 		s.mu.Lock()
 		if len(s.got)-s.taken >= n {
@@ -122,6 +141,9 @@ func (s *realSub) take(n int) []string {
 			s.mu.Unlock()
 			return append(out, "!closed")
 		case <-deadline:
+			if takeTimeouts++; takeTimeouts >= 4 {
+				takeBound = 50 * time.Millisecond
+			}
 			s.mu.Lock()
 			out := append([]string(nil), s.got[s.taken:]...)
 			s.taken = len(s.got)
